@@ -562,10 +562,24 @@ def r5_no_literal_indentation(w):
     return r
 
 
-RULES = [r1_nest_amounts, r2_column_combinators, r3_unit_flows_only_to_nest, r4_writers, r5_no_literal_indentation]
+def r6_verbatim_only_on_request(w):
+    """= C07.R3: the statement exempts `@typstyle off` regions, whose continuation lines keep the indentation of the source.  That exemption is the
+    user's request only if nothing but the directive marks a node as format-disabled (seed C12/4A: the attribute pass marked math calls with a
+    commented row, whose lines then kept their source indentation whatever the unit)."""
+    from rules import c07
+    rs = c07.r3_marking_pass(w)
+    rs.rule = 'C12.R6'
+    for f in rs.findings:
+        f.rule = 'C12.R6'
+        f.key = f.key.replace('C07.R3|', 'C12.R6|', 1)
+    return rs
+
+
+RULES = [r1_nest_amounts, r2_column_combinators, r3_unit_flows_only_to_nest, r4_writers, r5_no_literal_indentation, r6_verbatim_only_on_request]
 r5_no_literal_indentation.needs = ('core',)
 r1_nest_amounts.needs = ('core',)
 r2_column_combinators.needs = ('core',)
 r3_unit_flows_only_to_nest.needs = ('core',)
-r4_writers.needs = ('core',)
+r4_writers.needs = ("core",)
+r6_verbatim_only_on_request.needs = ("core",)
 MATRIX_RULES = RULES
